@@ -12,6 +12,7 @@ CONSTANTS
   Bases = {0, 1}
   Gates = {FALSE}
   Kinds = {"receipt"}
+  MaxSizes = {100}
   MaxBatch = 10
   Cap = 10
   FailLimit = 3
